@@ -10,26 +10,33 @@ META = {
                   'non-decreasing clocks; the model is an acceptor of time-stamped event sequences with one event per primitive on shared '
                   'state and per-caller program counters following io.py, INCLUDING the identification made on every connect (checkHWIdent: '
                   'one communicate per entry, retry of the first, close on mismatch, a reconnect from within an identification request) and '
-                  'replies of variable length (getFullReply -> readBytes)): lock_exclusive; multicomm_atomic (+ monitor soundness); '
-                  'exchange_atomic (+ monitor soundness): between the send of a command or identification request and every recv reading its '
-                  'reply - the part read by getFullReply included - no other caller touches the connection; closed_visible_run: a caller that '
-                  'drops the connection announces is_connected=false before it returns.  For all accepted runs of communicators WITHOUT '
-                  'identification: stale_discarded_run, reply_pairing_run (every reply completed is the first line / first rlen bytes of what '
-                  'ARRIVED AFTER the caller\'s own send, unless the connection was replaced or dropped since), reply_own_ret (replies of fixed '
-                  'length), delays_honoured_run and _return, fails_within_timeout_run (replies of fixed length), state_visible_run, '
-                  'reconnect_rate_limited (under AttemptsAtomic, a monitored clause with proved monitor soundness), callbacks_once_run.  '
-                  'Step level (any configuration): reconnect_mark_kept_partial (no step clears the reconnect mark), '
-                  'callbacks_after_ident_partial, ident_failed_partial, variable_reply_partial and the *_partial guards.  Proved for all inputs: '
-                  'framing_chunk_independent (+_bytes, _eq_unchunked); polling_resumes_partial.  state_visible_fails: "is_connected is not set '
-                  'back to true without a connect" is FALSE for the code that exists (recorded finding, counter-run proved).  Every clause is '
-                  'judged by its Lean monitor on every run of the real StringIO/BytesIO under the deterministic scheduler (every access of a '
-                  'thread to shared state is a scheduling point), and every run is replayed through the model (0 rejected events).',
+                  'replies of variable length (getFullReply -> readBytes)), for ANY configuration: lock_exclusive; multicomm_atomic and '
+                  'exchange_atomic (+ monitor soundness); transaction_uninterrupted (between two sends of one call nobody else touches the '
+                  'connection); last_delay_protected_run and transaction_protected_full (= transaction_protected_statement, the monitor form: a '
+                  'multicomm that returns its replies keeps the connection to itself until the delay of its last request has elapsed); '
+                  'delays_honoured_run/_return and delays_honoured (= delays_honoured_statement, the monitor form); state_not_overwritten_run '
+                  '(= state_visible_statement, the monitor form: is_connected=true is published only after a successful connect that follows '
+                  'every earlier closeConnection); closed_visible_run; reconnect_rate_limited (under AttemptsAtomic, a monitored clause with '
+                  'proved monitor soundness; rate tests of identification requests included); callbacks_once_ident_run (after checkHWIdent has '
+                  'passed on a reconnect the registered callbacks run one by one, in order, once); fails_within_timeout_all (an empty recv ends no later '
+                  'than one recv period after the time-out of the read it belongs to - of a command, an identification request or a readBytes of '
+                  'getFullReply); stale_discarded_run, reply_pairing_run '
+                  '(every reply completed is the first line / first rlen bytes of what ARRIVED AFTER the caller\'s own send, unless the '
+                  'connection was replaced or dropped since).  For accepted runs of communicators WITHOUT identification in addition: '
+                  'state_visible_run, callbacks_once_run, fails_within_timeout_run (the special case of _all); for replies of fixed length: '
+                  'reply_own_ret.  Step level (any configuration): reconnect_mark_kept_partial, callbacks_after_ident_partial, ident_failed_partial, '
+                  'variable_reply_partial and the *_partial guards.  Proved for all inputs: framing_chunk_independent (+_bytes, _eq_unchunked); '
+                  'polling_resumes_partial.  Every clause is judged by its Lean monitor on every run of the real StringIO/BytesIO under the '
+                  'deterministic scheduler (every access of a thread to shared state is a scheduling point), and every run is replayed through '
+                  'the model (0 rejected events).',
     'level_note': 'Trusted: Lean kernel + axioms propext/Classical.choice/Quot.sound; the scripted device and FakeConn (lowest AsynConn layer: '
-                  'recv/send/flush_recv) replace sockets, select and kernel buffering; the run-level theorems are stated at the events where '
-                  'the facts arise, their link to the `ret`-window form of the monitors is by the model\'s `ret` guard, not a separate theorem '
-                  '(the `*_statement` definitions keep the monitor forms); with an identification configured the run-level theorems about '
-                  'replies, delays, time-outs, rate limit and callbacks are NOT proved (only lock/exchange atomicity, closed_visible and the '
-                  'step-level facts) - these runs are covered by the monitors and the correspondence; polling_resumes is judged on the real poll '
+                  'recv/send/flush_recv) replace sockets, select and kernel buffering; three clauses are proved in the window form of their '
+                  'monitors (transaction_protected, delays_honoured, state_not_overwritten), two more have a proved monitor soundness '
+                  '(multicomm_atomic, exchange_atomic); the other run-level theorems are stated at the events where the facts arise, their link '
+                  'to the `ret`-window form of the monitors is by the model\'s `ret` guard, not a separate theorem (the `*_statement` definitions '
+                  'keep the monitor forms); with an identification configured state_visible_run (closed_visible_run is the general form), '
+                  'callbacks_once_run (callbacks_once_ident_run is the form with identification) do not apply; reply_own_ret is NOT proved for '
+                  'replies of variable length - covered by the monitors and the correspondence; polling_resumes is judged on the real poll '
                   'thread only.',
     'trusted': [
         'FakeConn.recv blocks at most AsynConn.timeout (1 s) and returns one device chunk at a time; flush_recv drains what has arrived (as AsynTcp); '
@@ -37,7 +44,8 @@ META = {
         'no byte arrives between the end of flush_recv and the send (same virtual instant)',
         'the virtual clock of vlib.sched (one tick per clock read); clock slack of 300 us per step in the time clauses',
         'instrumentation from outside: lock proxies (_lock, accessLock), time proxy of frappy.io, wrappers of check_connection/doPoll/'
-        'registerReconnectCallback/checkHWIdent, parameter callback on is_connected, a BytesIO subclass whose getFullReply reads the rest of a reply',
+        'registerReconnectCallback/checkHWIdent/announceUpdate (an update is_connected=True that did not take effect is the event `drop`), '
+        'parameter callback on is_connected, a BytesIO subclass whose getFullReply reads the rest of a reply',
         'the model has no accessLock: AttemptsAtomic is a hypothesis of reconnect_rate_limited and a monitored clause on the implementation; a refused '
         'non-blocking acquisition of accessLock is the event `busy`',
         'identification patterns are literal prefixes followed by wildcards (`prefix.*`, `p r e ?? ??`)',
@@ -47,9 +55,11 @@ META = {
     'modelled_not_verified': [
         'sockets / serial lines / select (AsynTcp, AsynSerial)',
         'wait_before with an end-of-line inside a command (several sends per communicate)',
-        'write_is_connected from a client, the generic read wrapper of modulebase (only its late announce of is_connected is modelled)',
+        'write_is_connected from a client, the generic read wrapper of modulebase (only its late announce of is_connected - discarded since the repair of F39 - is modelled)',
         'the real poll thread (only polling_resumes is judged on it)',
-        'with identification: run-level theorems other than lock_exclusive / multicomm_atomic / exchange_atomic / closed_visible_run',
+        'with identification: state_visible_run, callbacks_once_run are replaced by closed_visible_run / callbacks_once_ident_run; replies of variable length: reply_own_ret',
+        'a caller that closes a connection another thread has just opened but not yet published (is_connected is still false: the update false is no event); '
+        'modelled on the side of the connecting thread (event `drop`), not observed in the runs',
     ],
     'assumptions': [
         'reply_pairing: in the window of a command the device sends nothing but its answer to that command (a late reply that arrives after '
@@ -64,6 +74,8 @@ META = {
         'callbacks_once: a reconnect with an identification configured counts as successful when checkHWIdent has passed',
         'state_visible: the update is_connected=false follows the detection before the detecting call returns - or another caller has dropped the '
         'connection in between (then closed_visible applies to that caller)',
+        'transaction_protected: the delay of a request counts from its send (as in delays_honoured); a multicomm that fails gives the connection '
+        'back at once - the pause after its last command is owed only by a call that returns its replies',
     ],
 }
 
@@ -280,6 +292,14 @@ def run_case(case, policy=None, max_steps=20000):
                                                 # about the callbacks AT this event — see design_notes, "limits";
                                                 # for the same reason updateLock does not yield when it is released)
             io.addCallback('is_connected', on_isconn)
+            real_announce = io.announceUpdate
+
+            def announce(pname, value=None, err=None, *a, **k):     # observed from outside: an update is_connected=True
+                r = real_announce(pname, value, err, *a, **k)        # that did not take effect (no connection any more)
+                if pname == 'is_connected' and value and err is None and not io.parameters['is_connected'].value:
+                    log.add('drop')
+                return r
+            io.announceUpdate = announce
             for name in case.get('callbacks') or ():
                 keep = not name.startswith('once')      # a callback returning False is removed after its first run
                 io.registerReconnectCallback(
@@ -452,7 +472,7 @@ def model_events(case, events):
             out.append([t, 'isconn', c, ev['v']])
         elif e == 'cb':
             out.append([t, 'cb', c, cbs.index(ev['name']) if ev['name'] in cbs else CB_TRIGGER, ev['keep']])
-        elif e in ('acq', 'rel', 'wake', 'flush', 'hclose', 'busy'):
+        elif e in ('acq', 'rel', 'wake', 'flush', 'hclose', 'busy', 'drop'):
             out.append([t, e, c])
         elif e == 'slp':
             out.append([t, 'slp', c, ev['d']])
@@ -746,7 +766,7 @@ def realpoll_case(rng):
 
 
 # ----------------------------------------------------------------------------------------
-CLAUSES = ['multicomm_atomic', 'exchange_atomic', 'delays_honoured', 'stale_discarded', 'reply_pairing', 'fails_within_timeout',
+CLAUSES = ['multicomm_atomic', 'exchange_atomic', 'delays_honoured', 'transaction_protected', 'stale_discarded', 'reply_pairing', 'fails_within_timeout',
            'state_visible', 'closed_visible', 'state_not_overwritten', 'reconnect_rate_limited', 'attempts_atomic', 'callbacks_once', 'polling_resumes']
 
 
@@ -845,6 +865,8 @@ def run(ctx):
         res.count('mode.' + case['mode'])
         res.count('callers=%d' % len(case['callers']))
         res.count('fault.detected' if fault else 'fault.none')
+        if 'drop' in kinds:
+            res.count('update.outdated_true_discarded')
         for f in case.get('faults', []):
             res.count('script.' + f)
         nerr = sum(1 for e in evs if e['e'] == 'ret' and not isinstance(e['r'], list))
